@@ -7,6 +7,8 @@ package c18
 // The Switch's own listenerRoutine -> addInboundPeerWithConfig -> newInboundPeerConn -> addPeer path does the rest.
 
 import (
+	"bufio"
+	"bytes"
 	"fmt"
 	"net"
 	"sort"
@@ -119,6 +121,90 @@ type tcpEnd struct {
 func (t tcpEnd) RemoteAddr() net.Addr { return &net.TCPAddr{IP: net.IPv4(127, 0, 0, 1), Port: t.port} }
 func (t tcpEnd) LocalAddr() net.Addr  { return &net.TCPAddr{IP: net.IPv4(127, 0, 0, 1), Port: 13999} }
 
+// ---- a reactor that records what the switch hands it ---------------------------------------
+
+type recvd struct {
+	ch   byte
+	from string // peer.ID() as the reactor sees it
+	msg  []byte
+}
+
+type lvReactor struct {
+	*p2p.BaseReactor
+	mu      sync.Mutex
+	got     []recvd
+	added   []string
+	removed []string
+}
+
+func newReactor() *lvReactor {
+	r := &lvReactor{}
+	r.BaseReactor = p2p.NewBaseReactor("lvReactor", r)
+	return r
+}
+
+// 0x40 is what the harness peers advertise in NodeInfo.Channels; 0x41 is known to the switch only
+func (r *lvReactor) GetChannels() []*tmconn.ChannelDescriptor {
+	return []*tmconn.ChannelDescriptor{{ID: 0x40, Priority: 1, SendQueueCapacity: 4, RecvMessageCapacity: 4096},
+		{ID: 0x41, Priority: 1, SendQueueCapacity: 4, RecvMessageCapacity: 4096}}
+}
+func (r *lvReactor) AddPeer(p p2p.Peer) {
+	r.mu.Lock()
+	r.added = append(r.added, p.ID())
+	r.mu.Unlock()
+}
+func (r *lvReactor) RemovePeer(p p2p.Peer, reason interface{}) {
+	r.mu.Lock()
+	r.removed = append(r.removed, p.ID())
+	r.mu.Unlock()
+}
+func (r *lvReactor) Receive(ch byte, p p2p.Peer, msg []byte) {
+	r.mu.Lock()
+	r.got = append(r.got, recvd{ch, p.ID(), append([]byte{}, msg...)})
+	r.mu.Unlock()
+}
+func (r *lvReactor) count() int {
+	r.mu.Lock()
+	defer r.mu.Unlock()
+	return len(r.got)
+}
+
+// remoteEnd is the harness side of an admitted connection: it keeps reading and reassembles what the switch sends
+type remoteEnd struct {
+	raw  *end
+	sc   *tmconn.SecretConnection
+	peer p2p.Peer
+	mu   sync.Mutex
+	msgs []recvd // whole messages received FROM the switch (ch, -, bytes)
+}
+
+func (re *remoteEnd) readLoop(closed chan struct{}) {
+	defer close(closed)
+	br := bufio.NewReader(re.sc)
+	acc := map[byte][]byte{}
+	for {
+		var p tmconn.Packet
+		if _, err := ser.DecodeReaderWithType(br, &p, 1<<20); err != nil {
+			return
+		}
+		if pm, ok := p.(tmconn.PacketMsg); ok {
+			acc[pm.ChannelID] = append(acc[pm.ChannelID], pm.Bytes...)
+			if pm.EOF == 1 {
+				re.mu.Lock()
+				re.msgs = append(re.msgs, recvd{pm.ChannelID, "", acc[pm.ChannelID]})
+				re.mu.Unlock()
+				acc[pm.ChannelID] = nil
+			}
+		}
+	}
+}
+
+func (re *remoteEnd) count() int {
+	re.mu.Lock()
+	defer re.mu.Unlock()
+	return len(re.msgs)
+}
+
 // ---- the switch under test ------------------------------------------------------------------
 
 type swState struct {
@@ -127,11 +213,16 @@ type swState struct {
 	ls    *memListener
 	keys  map[string]crypto.PrivKeyEd25519 // S = the switch, A..F = remote key holders
 	conns map[string]*end                   // harness side of the connection of an admitted peer, by authenticated key name
+	rems  map[string]*remoteEnd
+	rx    *lvReactor
 	all   []*end // every admitted connection (closed when the case ends)
 	nconn int
 }
 
 var swInitOnce sync.Once
+
+// short, so that a stalling peer costs little; honest handshakes take well under a millisecond
+const swHandshakeTimeout = 150 * time.Millisecond
 
 func baseNodeInfo(pk crypto.PubKeyEd25519) p2p.NodeInfo {
 	return p2p.NodeInfo{PubKey: pk, Network: "lv-chain", Version: "0.1.3", Channels: []byte{0x40}, Moniker: "lv",
@@ -147,18 +238,20 @@ func newSwitch() (*swState, error) {
 		p2p.DefaultNewTableFunc = func(*p2p.Switch, []*pcommon.Node) error { return nil }
 		log.Root().SetHandler(log.DiscardHandler()) // PeerSet.Add logs through the root logger, which writes to stdout
 	})
-	st := &swState{lg: &capLogger{}, ls: &memListener{ch: make(chan net.Conn, 4)}, keys: map[string]crypto.PrivKeyEd25519{}, conns: map[string]*end{}}
+	st := &swState{lg: &capLogger{}, ls: &memListener{ch: make(chan net.Conn, 4)}, keys: map[string]crypto.PrivKeyEd25519{}, conns: map[string]*end{},
+		rems: map[string]*remoteEnd{}, rx: newReactor()}
 	for _, n := range []string{"S", "A", "B", "C", "D", "E", "F"} {
 		st.keys[n] = crypto.GenPrivKeyEd25519()
 	}
 	cfg := config.DefaultP2PConfig()
 	cfg.ListenAddress = ""
-	cfg.HandshakeTimeout = 3 * time.Second
+	cfg.HandshakeTimeout = swHandshakeTimeout
 	pk := st.keys["S"].PubKey().(crypto.PubKeyEd25519)
 	sw, err := p2p.NewP2pManager(st.lg, st.keys["S"], cfg, baseNodeInfo(pk), nil, nil)
 	if err != nil {
 		return nil, err
 	}
+	sw.AddReactor("lv", st.rx)
 	sw.AddListener(st.ls)
 	if err := sw.Start(); err != nil {
 		return nil, err
@@ -216,6 +309,23 @@ func (st *swState) connect(toks []string) string {
 		idsBefore[p.ID()] = true
 	}
 	st.ls.ch <- tcpEnd{local, 20000 + st.nconn}
+	if stall := argS(toks, "stall"); stall == "eph" || stall == "auth" {
+		// the remote goes quiet before / in the middle of the secret handshake and keeps the connection open
+		t0 := time.Now()
+		if stall == "auth" {
+			remote.Write(encEph(randKey32()))
+		}
+		ok := waitFor(func() bool { return st.lg.count() > errsBefore }, 3*time.Second)
+		took := time.Since(t0)
+		remote.Close()
+		why := admitErrClass(st.lg.last())
+		if !ok {
+			why = "timeout"
+		} else if took < swHandshakeTimeout*8/10 || took > swHandshakeTimeout*6 {
+			why = "deadline-off" // dropped, but not by the handshake deadline
+		}
+		return fmt.Sprintf("added=false why=%s id=- peers=%s", why, st.peers())
+	}
 	r := <-runHS(remote, ak)
 	if r.err != nil {
 		remote.Close()
@@ -226,20 +336,18 @@ func (st *swState) connect(toks []string) string {
 	sc := r.sc
 	// NodeInfo handshake, remote side: write ours, read theirs (in tandem, as HandShakeFunc does)
 	closed := make(chan struct{})
+	re := &remoteEnd{raw: remote, sc: sc}
 	go func() {
-		defer close(closed)
 		var theirs p2p.NodeInfo
 		if _, err := ser.DecodeReaderWithType(sc, &theirs, int64(p2p.MaxNodeInfoSize())); err != nil {
+			close(closed)
 			return
 		}
-		buf := make([]byte, 256)
-		for {
-			if _, err := sc.Read(buf); err != nil {
-				return
-			}
-		}
+		re.readLoop(closed)
 	}()
+	t0 := time.Now()
 	switch claim {
+	case "stall": // secret connection up, NodeInfo never sent, connection kept open
 	case "garbage":
 		sc.Write([]byte{0xc3, 0x01, 0x02, 0x03, 0xff, 0xff})
 	case "silent":
@@ -276,13 +384,22 @@ func (st *swState) connect(toks []string) string {
 		}
 		st.all = append(st.all, remote)
 		st.conns[auth] = remote
+		for _, p := range st.sw.Peers().List() {
+			if !idsBefore[p.ID()] {
+				re.peer = p
+			}
+		}
+		st.rems[auth] = re
 		return fmt.Sprintf("added=true why=none id=%s peers=%s", newID, st.peers())
 	}
+	took := time.Since(t0)
 	remote.Close()
 	<-closed
 	why := admitErrClass(st.lg.last())
 	if timedOut {
 		why = "timeout"
+	} else if claim == "stall" && (took < swHandshakeTimeout*8/10 || took > swHandshakeTimeout*6) {
+		why = "deadline-off"
 	}
 	return fmt.Sprintf("added=false why=%s id=- peers=%s", why, st.peers())
 }
@@ -323,6 +440,78 @@ func (e *exec) swOp(toks []string) string {
 		return "ok"
 	case "swconn":
 		return st.connect(toks)
+	case "swsend": // the node sends to a peer through the Peer interface: swsend key=K ch=N d=spec mode=send|try [stale=1]
+		name := argS(toks, "key")
+		re := st.rems[name]
+		sp, ok := parseSpec(argS(toks, "d"))
+		if !ok {
+			return "bad-op"
+		}
+		if re == nil || re.peer == nil {
+			return "ok=nopeer got=-"
+		}
+		if argS(toks, "stale") == "" && !st.sw.Peers().HasID(pcommon.TransPubKeyToStringID(st.keys[name].PubKey())) {
+			return "ok=nopeer got=-"
+		}
+		before := re.count()
+		can := "-"
+		if cs, ok := re.peer.(interface{ CanSend(byte) bool }); ok {
+			can = fmt.Sprint(cs.CanSend(byte(atoi(argS(toks, "ch")))))
+		}
+		var res bool
+		if argS(toks, "mode") == "try" {
+			res = re.peer.TrySend(byte(atoi(argS(toks, "ch"))), sp.bytes())
+		} else {
+			res = re.peer.Send(byte(atoi(argS(toks, "ch"))), sp.bytes())
+		}
+		if !res {
+			time.Sleep(3 * time.Millisecond)
+			if re.count() != before {
+				return "ok=false got=unexpected can=" + can
+			}
+			return "ok=false got=- can=" + can
+		}
+		if !waitFor(func() bool { return re.count() > before }, 3*time.Second) {
+			return "ok=true got=lost can=" + can
+		}
+		re.mu.Lock()
+		m := re.msgs[len(re.msgs)-1]
+		re.mu.Unlock()
+		return fmt.Sprintf("ok=true got=%d:%s can=%s", m.ch, fnvOf(m.msg), can)
+	case "swrecv": // the remote peer sends a message: swrecv key=K ch=N d=spec [frag=n]
+		name := argS(toks, "key")
+		re := st.rems[name]
+		sp, ok := parseSpec(argS(toks, "d"))
+		if !ok {
+			return "bad-op"
+		}
+		id := pcommon.TransPubKeyToStringID(st.keys[name].PubKey())
+		if re == nil || !st.sw.Peers().HasID(id) {
+			return "from=nopeer"
+		}
+		ch := byte(atoi(argS(toks, "ch")))
+		before := st.rx.count()
+		data := sp.bytes()
+		frag := atoi(argS(toks, "frag"))
+		var wire bytes.Buffer
+		if frag > 0 && frag < len(data) {
+			ser.EncodeWriterWithType(&wire, tmconn.PacketMsg{ChannelID: ch, EOF: 0, Bytes: data[:frag]})
+			data = data[frag:]
+		}
+		ser.EncodeWriterWithType(&wire, tmconn.PacketMsg{ChannelID: ch, EOF: 1, Bytes: data})
+		re.sc.Write(wire.Bytes())
+		ok = waitFor(func() bool { return st.rx.count() > before || !st.sw.Peers().HasID(id) }, 3*time.Second)
+		if st.rx.count() > before {
+			st.rx.mu.Lock()
+			g := st.rx.got[len(st.rx.got)-1]
+			st.rx.mu.Unlock()
+			return fmt.Sprintf("from=%s ch=%d d=%s peers=%s", st.idName(g.from), g.ch, fnvOf(g.msg), st.peers())
+		}
+		if !ok {
+			return "from=timeout peers=" + st.peers()
+		}
+		delete(st.conns, name)
+		return "from=none-peer-removed peers=" + st.peers()
 	case "swdrop": // the remote side of an admitted peer closes its connection; the switch removes the peer
 		name := argS(toks, "key")
 		c := st.conns[name]
